@@ -152,7 +152,11 @@ macro_rules! impl_opaque { ($T:ident) => {
         fn min(self, o: $T) -> $T { <$T as OpqPrim>::app("ord_min", &[self, o]) }
     }
     impl Default for $T { fn default() -> $T { <$T as OpqPrim>::app("dflt", &[]) } }
-    impl std::fmt::Display for $T { fn fmt(&self, f: &mut std::fmt::Formatter) -> std::fmt::Result { write!(f, "<{}>", self.0) } }
+    // the rendering shows the formatting parameters it was given, so that a container's Display which fails to
+    // forward width / precision / sign to its elements produces a different string
+    impl std::fmt::Display for $T { fn fmt(&self, f: &mut std::fmt::Formatter) -> std::fmt::Result {
+        if f.width().is_none() && f.precision().is_none() && !f.sign_plus() && !f.alternate() { write!(f, "<{}>", self.0) }
+        else { write!(f, "<{}|w{:?}|p{:?}|{}{}>", self.0, f.width(), f.precision(), if f.sign_plus() { "+" } else { "" }, if f.alternate() { "#" } else { "" }) } } }
     impl std::iter::Sum for $T { fn sum<I: Iterator<Item = $T>>(it: I) -> $T { it.fold(<$T as num_traits::Zero>::zero(), |a, b| a + b) } }
     impl std::iter::Product for $T { fn product<I: Iterator<Item = $T>>(it: I) -> $T { it.fold(<$T as num_traits::One>::one(), |a, b| a * b) } }
     impl From<u8> for $T { fn from(x: u8) -> $T { <$T as OpqPrim>::app(&format!("from_u8_{}", x), &[]) } }
